@@ -93,6 +93,7 @@ def history(ctx, rng, desc, hid):
         m.subscribe()
         for j in range(2):
             m.add_callback(lambda mp, name=name, j=j: cb_log.append((name, j, mp is cmaps[name])))
+    pm.subscribe()
     listeners = ["A", "B"] if collide else ["A"]
     ops = []
     assigned = {}
@@ -187,8 +188,11 @@ def history(ctx, rng, desc, hid):
                 cm.rtr_allowed = rng.random() < 0.6
                 ops.append(("remote_request", name, cm.enabled, cm.rtr_allowed))
                 mark = len(bus.log)
+                pm_before = (bytes(pm.data), pm.timestamp)
                 cm.remote_request()
                 sent = [f for f in list(bus.log)[mark:] if f.src == "consumer"]
+                if (bytes(pm.data), pm.timestamp) != pm_before:
+                    ctx.violation("remote-frame-changed-producer-map", f"the remote request changed the producer's subscribed map: {pm_before} -> {(bytes(pm.data), pm.timestamp)}", case())
                 ctx.count("rtr_checks")
                 ctx.case((f"{pk}->{ck}", "rtr", cm.enabled, cm.rtr_allowed), nontrivial=True)
                 if cm.enabled and cm.rtr_allowed:
@@ -282,6 +286,36 @@ def run_waits(ctx, desc):
             ctx.inconc(f"wait_for_reception timeout: {status}", case)
         elif status != "returned" or val is not None:
             ctx.violation("wait-for-reception-timeout", f"no frame arrived, wait_for_reception ended {status} with {val!r}", case)
+        # a frame that arrived while nobody was waiting is not "the next reception"
+        pm[0].raw = 0
+        pm.transmit()
+        bus.quiesce()
+        status, val = waits.run_waiter(lambda: cm.wait_for_reception(0.02), cond, None)
+        ctx.count("wait_cases")
+        ctx.case(("wait-reception-after-stale",), nontrivial=True)
+        if status in ("hung", "never-waited"):
+            ctx.inconc(f"wait_for_reception after stale: {status}", case)
+        elif status != "returned" or val is not None:
+            ctx.violation("wait-for-reception-satisfied-by-earlier-frame", f"a frame arrived before the wait and nothing after; wait_for_reception returned {val!r}", case)
+        # several readers wait at once: one frame wakes them all
+        sent2 = {}
+
+        def deliver2():
+            pm[0].raw = 1
+            mark = len(bus.log)
+            pm.transmit()
+            sent2["ts"] = [f for f in list(bus.log)[mark:] if f.src == "producer"][0].ts
+        res = waits.run_waiters([lambda: cm.wait_for_reception(4), lambda: cm.wait_for_reception(4)], cond, deliver2)
+        bus.quiesce()
+        ctx.count("wait_cases")
+        ctx.case(("wait-reception-several",), nontrivial=True)
+        for i, (status, val) in enumerate(res):
+            if status in ("hung", "never-waited"):
+                ctx.inconc(f"wait_for_reception several: {status}", case)
+            elif status == "not-woken":
+                ctx.violation("waiter-not-woken:several-waiters", f"reader {i} of 2 was not woken by the frame", case)
+            elif status != "returned" or val != sent2.get("ts"):
+                ctx.violation("wait-for-reception", f"reader {i} of 2 ended {status} with {val!r}, frame timestamp {sent2.get('ts')!r}", case)
         # a frame for another COB-ID does not wake the waiter with a timestamp
         status, val = waits.run_waiter(lambda: cm.wait_for_reception(0.05), cond, lambda: (pnet.send_message(0x181 + K, b"\x01\x02"), bus.quiesce()))
         ctx.count("wait_cases")
